@@ -636,6 +636,12 @@ class Evaluator:
         for k, v in zip(segkeys, sraw[len(mlines):]):
             self.seg_cache[k] = v
         sraw = sraw[:len(mlines)]
+        # ... and the model on libxml2's events of the documents libxml2 accepts
+        for ji, j in enumerate(jobs):
+            X = res[4 * ji + 3]
+            if j.resets == "-" and j.base == "-" and X and not X.startswith("CRASH") and not E_RE.search(X):
+                sraw.append(X)
+                mref.append((ji, 0))
         model = self.run_m([s if s and not s.startswith("CRASH") else "-" for s in sraw])
         model_by = {}
         for (ji, i), s, m in zip(mref, sraw, model):
@@ -656,7 +662,9 @@ class Evaluator:
             else:
                 chk.broken.append({"kind": "harness", "name": "c10_driver", "detail": "twin expat / libxml2 run died: %s" % crashed[0][:200]})
             return
-        Ls, Ss, Ds = split_results(Lline), split_results(Sline), split_results(Dline)
+        Ls, Ss = split_results(Lline), split_results(Sline)
+        # a libexpat without XML_SetReparseDeferralEnabled has no reparse deferral to switch off
+        Ds = Ss if Dline.endswith(" NOAPI") else split_results(Dline)
         if not (len(Ls) == len(Ss) == len(Ds) == len(plist)):
             chk.broken.append({"kind": "harness", "name": "c10_driver", "detail": "result count %d/%d/%d for %d partitions" % (len(Ls), len(Ss), len(Ds), len(plist))})
             return
@@ -786,7 +794,18 @@ def run(chk):
         chk.broken.append({"kind": "extract", "name": "Extract_C10", "detail": str(e)[:500]})
     ev = Evaluator(chk, exe, mexe)
     ev.evaluate(load_corpus())
-    ev.evaluate(gen_jobs(chk))
+    jobs = gen_jobs(chk)
+    # a thin slice first: if the library already dies all over it, the failing inputs are there and the bulk
+    # (where every death costs a sanitizer report and a bisection) is skipped
+    step = max(1, len(jobs) // 60)
+    smoke = jobs[::step]
+    rest = [j for i, j in enumerate(jobs) if i % step]
+    ev.evaluate(smoke)
+    died = sum(1 for f in chk.failures if f.get("cls") == "crash")
+    if died >= 10:
+        chk.extra["skipped_after_smoke_run"] = "%d jobs not run: the library died on %d inputs of the first %d jobs" % (len(rest), died, len(smoke))
+    else:
+        ev.evaluate(rest)
     # one representative per failure class is enough for the report; keep the list short
     seen = {}
     keep = []
